@@ -247,6 +247,53 @@ func init() {
 		return intrinsics["(*os.File).WriteString"](m, fn, []Value{f, a[1]})
 	})
 
+	// ------------------------------------------------------------ json.Encoder / bytes.Buffer holding a snapshot
+	reg("encoding/json.NewEncoder", func(m *Machine, fn *ssa.Function, a []Value) Value {
+		return &Ext{Kind: "jsonenc", F: map[string]Value{"w": a[0]}}
+	})
+	reg("(*encoding/json.Encoder).SetEscapeHTML", func(m *Machine, fn *ssa.Function, a []Value) Value { return nil })
+	reg("(*encoding/json.Encoder).SetIndent", func(m *Machine, fn *ssa.Function, a []Value) Value { return nil })
+	reg("(*encoding/json.Encoder).Encode", func(m *Machine, fn *ssa.Function, a []Value) Value {
+		enc := a[0].(*Ext)
+		it := a[1].(Iface)
+		m.logDeepRead(it.V, map[interface{}]bool{})
+		blob := &JSONBlob{Snap: deepCopy(it.V)}
+		w := enc.F["w"]
+		if f := fileOf(w); f != nil {
+			return intrinsics["(*os.File).WriteString"](m, fn, []Value{f, blob}).(Tuple)[1]
+		}
+		if wi, ok := w.(Iface); ok {
+			if p, isP := wi.V.(*Value); isP && p != nil {
+				// a *bytes.Buffer (or another in-memory writer): the snapshot is what it holds
+				if m.bufBlob == nil {
+					m.bufBlob = map[*Value]*JSONBlob{}
+				}
+				m.bufBlob[p] = blob
+				return nilErr()
+			}
+		}
+		m.unsupported("json.Encoder over an unmodelled writer")
+		return nil
+	})
+	reg("(*bytes.Buffer).Bytes", func(m *Machine, fn *ssa.Function, a []Value) Value {
+		if p, ok := a[0].(*Value); ok {
+			if b, has := m.bufBlob[p]; has {
+				return b
+			}
+		}
+		m.unsupported("(*bytes.Buffer).Bytes: interpreted from the library source")
+		return nil
+	})
+	reg("(*bytes.Buffer).Len", func(m *Machine, fn *ssa.Function, a []Value) Value {
+		if p, ok := a[0].(*Value); ok {
+			if b, has := m.bufBlob[p]; has {
+				return jsonLen(b)
+			}
+		}
+		m.unsupported("(*bytes.Buffer).Len: interpreted from the library source")
+		return nil
+	})
+
 	// ------------------------------------------------------------ bufio.Writer (pass-through)
 	mkBufW := func(m *Machine, fn *ssa.Function, a []Value) Value {
 		return &Ext{Kind: "bufwriter", F: map[string]Value{"w": a[0]}}
@@ -368,6 +415,11 @@ func init() {
 	// ------------------------------------------------------------ bytes (concrete)
 	bb := func(name string, f func(x, y []byte) Value) {
 		reg(name, func(m *Machine, fn *ssa.Function, a []Value) Value {
+			if bx, isX := a[0].(*JSONBlob); isX {
+				if by, isY := a[1].(*JSONBlob); isY && (name == "internal/bytealg.Equal" || name == "bytes.Equal") {
+					return m.deepEq(bx.Snap, by.Snap, 0)
+				}
+			}
 			x, ok1 := concreteBytes(a[0])
 			y, ok2 := concreteBytes(a[1])
 			if !ok1 || !ok2 {
@@ -406,6 +458,30 @@ func init() {
 		reg(name, func(m *Machine, fn *ssa.Function, a []Value) Value {
 			x, ok := concreteBytes(a[0])
 			c, okc := a[1].(int64)
+			if !ok && okc {
+				// symbolic bytes: as a symbolic string
+				var st *sym.Str
+				switch b := a[0].(type) {
+				case *SymBytes:
+					st = b.S
+					if b.mat != nil {
+						st = m.convertBytesToStr(b.mat).(*sym.Str)
+					}
+				case Slice:
+					st, _ = m.convertBytesToStr(b).(*sym.Str)
+				}
+				if st != nil {
+					needle := string([]byte{byte(c)})
+					switch {
+					case strings.HasSuffix(name, ".IndexByte"):
+						return m.normScalar(m.C.Sext(m.C.IndexOf(st, needle), 32))
+					case strings.HasSuffix(name, ".LastIndexByte"):
+						return m.normScalar(m.C.Sext(m.C.LastIndexOf(st, needle), 32))
+					case strings.HasSuffix(name, ".Count"):
+						return intrinsics["internal/bytealg.CountString"](m, fn, []Value{st, int64(c)})
+					}
+				}
+			}
 			if !ok || !okc {
 				m.unsupported("%s on symbolic bytes", name)
 			}
@@ -415,4 +491,92 @@ func init() {
 	bc("internal/bytealg.IndexByte", func(x []byte, c byte) Value { return int64(bytes.IndexByte(x, c)) })
 	bc("internal/bytealg.LastIndexByte", func(x []byte, c byte) Value { return int64(bytes.LastIndexByte(x, c)) })
 	bc("internal/bytealg.Count", func(x []byte, c byte) Value { return int64(bytes.Count(x, []byte{c})) })
+}
+
+// deepEq: structural equality of two value graphs (snapshots); symbolic scalars are decided.
+func (m *Machine) deepEq(a, b Value, d int) bool {
+	if d > 40 {
+		return false
+	}
+	switch x := a.(type) {
+	case *Value:
+		y, ok := b.(*Value)
+		if !ok {
+			return false
+		}
+		if x == nil || y == nil {
+			return x == nil && y == nil
+		}
+		return m.deepEq(*x, *y, d+1)
+	case Struct:
+		y, ok := b.(Struct)
+		if !ok || len(x) != len(y) {
+			return false
+		}
+		for i := range x {
+			if !m.deepEq(x[i], y[i], d+1) {
+				return false
+			}
+		}
+		return true
+	case Slice:
+		y, ok := b.(Slice)
+		if !ok || len(x) != len(y) {
+			return false
+		}
+		for i := range x {
+			if !m.deepEq(x[i], y[i], d+1) {
+				return false
+			}
+		}
+		return true
+	case Array:
+		y, ok := b.(Array)
+		if !ok || len(x) != len(y) {
+			return false
+		}
+		for i := range x {
+			if !m.deepEq(x[i], y[i], d+1) {
+				return false
+			}
+		}
+		return true
+	case *Map:
+		y, ok := b.(*Map)
+		if !ok {
+			return false
+		}
+		if x == nil || y == nil {
+			return (x == nil || x.Len() == 0) && (y == nil || y.Len() == 0)
+		}
+		if x.Len() != y.Len() {
+			return false
+		}
+		for i, k := range x.keys {
+			if _, live := m.mapGetNoFork(x, k); !live {
+				continue
+			}
+			yv, has := m.mapGet(y, k)
+			if !has || !m.deepEq(x.vals[i], yv, d+1) {
+				return false
+			}
+		}
+		return true
+	case Iface:
+		y, ok := b.(Iface)
+		if !ok {
+			return false
+		}
+		if x.T == nil || y.T == nil {
+			return x.T == nil && y.T == nil
+		}
+		return m.deepEq(x.V, y.V, d+1)
+	case nil:
+		return b == nil
+	}
+	switch b.(type) {
+	case *Value, Struct, Slice, Array, *Map, Iface:
+		return false
+	}
+	return m.DecideV(m.eqValue(a, b))
 }
